@@ -634,6 +634,17 @@ func checkHandoffCounts(r3 *core.RuleRun, p *producerImpl, name string, hset map
 		fmt.Sprintf("on paths without a back-end error a dequeued message is handed over %s times (want exactly 1): lost or duplicated", fmtRange(res, "latch")))
 	all := core.CountQuery{Fn: fn, Start: p.recv, Stop: stop, Event: ev, EdgeEvent: edgeEv}.Run()
 	if all.Max["latch"] >= core.Inf {
+		// inside a retry cycle the back-end must get the message by value on every attempt: a pointer to a
+		// local container lets the callee consume it (net.Buffers.WriteTo does), so a retry re-sends a tail
+		for h := range hset {
+			if c, ok := h.(ssa.CallInstruction); ok {
+				for _, a := range c.Common().Args {
+					if al, isAlloc := a.(*ssa.Alloc); isAlloc && !p.loopLocalTo(al, fn, h) {
+						r3.Fail(name+":retry-resends-whole-message", h.Pos(), "inside the retry loop the back-end call receives a pointer to a local message container built outside the loop: what a failed attempt consumed is not re-sent, the sink gets a fragment")
+					}
+				}
+			}
+		}
 		// a retry cycle exists: it must only repeat after an error, and be bounded by a counter against a configured limit
 		for h := range hset {
 			e := errOf[h]
@@ -701,4 +712,18 @@ func retryBounded(fn *ssa.Function, h ssa.Instruction, outer *core.Loop) bool {
 		}
 	}
 	return ok
+}
+
+// loopLocalTo: the Alloc is (re)built inside the innermost loop around h (fresh per attempt).
+func (p *producerImpl) loopLocalTo(a *ssa.Alloc, fn *ssa.Function, h ssa.Instruction) bool {
+	inner := core.LoopOf(fn, h)
+	if inner == nil || inner == p.loop {
+		return true
+	}
+	for _, ref := range referrers(a) {
+		if st, ok := ref.(*ssa.Store); ok && st.Addr == ssa.Value(a) && inner.Contains(st) {
+			return true
+		}
+	}
+	return false
 }
